@@ -26,6 +26,8 @@ CFG = {
     'G': ({'t1': ['flush', 'readw', 'clse'], 't2': ['flush', 'readw', 'clse']}, {'t1': [[1]], 't2': [[1]]}),
     'H': ({'t1': ['shell'], 't2': tour.PUSH2}, {'t1': [[]], 't2': [[], [1]]}),
     'I': ({'t1': ['flush', 'readw', 'clse'], 't2': tour.PUSH2}, {'t1': [[1]], 't2': [[], [1]]}),
+    'J': ({'t1': tour.PUSH2, 't2': tour.PUSH2}, {'t1': [[], [1]], 't2': [[], [1]]}),
+    'K': ({'t1': tour.PUSH2, 't2': ['flush', 'readw', 'clse'], 't3': ['flush', 'readw', 'clse']}, {'t1': [[], [1]], 't2': [[1]], 't3': [[1]]}),
 }
 INV = ('MonitorOK', 'Complete', 'NoCrossTalk', 'NoStuck', 'LockDiscipline')
 
@@ -105,6 +107,9 @@ def do_explore(ctx, rng, n, names, modes):
         mode = modes[(i // len(names)) % len(modes)]
         prog, rep = CFG[name]
         runs.append((name, mode, rng.randrange(1 << 30)))
+    # overlapping FileSync transactions need the preemption point inside push (local read): extra schedules with it always on
+    for i in range(n // 4):
+        runs.append((('K', 'J', 'I')[i % 3], modes[i % len(modes)], 3 * rng.randrange(1 << 28)))
     traces, infos = [], []
     by = {}
     for name, mode, seed in runs:
@@ -139,6 +144,14 @@ def do_explore(ctx, rng, n, names, modes):
                     if p in ([],) and res and res[0] == 'ret':
                         continue
                     bad = (t, repr(res), repr(want))
+            # what the device received from each pushing thread must be that thread's own file
+            for t, p in prog.items():
+                if p == tour.PUSH2 and not bad:
+                    ti = sorted(prog).index(t)
+                    want_data = bytes((x * (ti + 3) + ti) % 251 for x in range(40))
+                    recs = info.get('pushed', {}).get(info['lids'].get(t), [])
+                    if len(recs) != 1 or recs[0][1] != want_data or recs[0][2]:
+                        bad = (t, 'device received %r' % (recs[:1],), 'its own 40 bytes')
             if bad:
                 ctx.violation('C06.SameAsAlone', dict(rp, thread=bad[0], got=bad[1], expected=bad[2]))
             else:
@@ -153,6 +166,159 @@ def do_explore(ctx, rng, n, names, modes):
     ctx.extra['explored_schedules'] = len(traces)
     ctx.extra['verdict_histogram'] = hist
     ctx.sample(dict(kind='schedule', config=infos[0]['config'], mode=infos[0]['mode'], schedule=infos[0]['schedule'][:25]))
+
+
+def interleaved_generators(ctx, rng):
+    """Cooperative concurrency in ONE thread / task: several streaming_shell generators over distinct streams are advanced in
+    random order (plus whole operations in between), while the device sends any ready stream's packet next.  Each generator
+    must yield exactly its own stream's payloads.  One scenario keeps a stream open across many abandoned streams."""
+    from .. import env, simdev
+    n = 0
+
+    def scenario(mode, seed, nabandon):
+        r = random.Random(seed)
+        dev = simdev.SimDevice(chooser=simdev.Seeded(seed), seed=seed)
+        scripts = {}
+        names = ['g%d' % i for i in range(r.randint(2, 4))]
+        for nm in names:
+            scripts[nm] = [('%s#%d;' % (nm, j)).encode() for j in range(r.randint(0, 4))]
+            dev.shell_scripts[b'shell:' + nm.encode()] = scripts[nm]
+        for j in range(nabandon):
+            dev.shell_scripts[b'shell:ab%d' % j] = [b'x']
+        dev.service_for = lambda dest, d: (simdev.ShellService([b'x'], close=False) if dest.startswith(b'shell:ab') else None)
+        dev.shell_scripts[b'shell:whole'] = [b'w1', b'w2']
+        sess = env.Session(mode, dev)
+        sess.call('connect')
+        got = {nm: [] for nm in names}
+        errors = []
+        if mode == 'sync':
+            gens = {nm: iter(sess.device.streaming_shell(nm, decode=False, read_timeout_s=2.0)) for nm in names}
+            live = list(names)
+            opened_abandoned = 0
+            steps = 0
+            while live and steps < 500:
+                steps += 1
+                if opened_abandoned < nabandon and len(got[names[0]]) >= 1 or (opened_abandoned < nabandon and not scripts[names[0]]):
+                    g = iter(sess.device.streaming_shell('ab%d' % opened_abandoned, decode=False, read_timeout_s=2.0))
+                    try:
+                        next(g)
+                    except Exception as e:  # noqa
+                        errors.append(('abandoned', repr(e)))
+                    opened_abandoned += 1
+                    continue
+                c = r.random()
+                if c < 0.15:
+                    try:
+                        v = sess.device.shell('whole', decode=False, read_timeout_s=2.0)
+                        if v != b'w1w2':
+                            errors.append(('whole', repr(v)))
+                    except Exception as e:  # noqa
+                        errors.append(('whole', repr(e)))
+                    continue
+                nm = r.choice(live)
+                try:
+                    got[nm].append(next(gens[nm]))
+                except StopIteration:
+                    live.remove(nm)
+                except Exception as e:  # noqa
+                    errors.append((nm, repr(e)))
+                    live.remove(nm)
+        else:
+            async def go():
+                gens = {nm: sess.device.streaming_shell(nm, decode=False, read_timeout_s=2.0).__aiter__() for nm in names}
+                live = list(names)
+                opened = 0
+                steps = 0
+                while live and steps < 500:
+                    steps += 1
+                    if opened < nabandon and (len(got[names[0]]) >= 1 or not scripts[names[0]]):
+                        g = sess.device.streaming_shell('ab%d' % opened, decode=False, read_timeout_s=2.0).__aiter__()
+                        try:
+                            await g.__anext__()
+                        except Exception as e:  # noqa
+                            errors.append(('abandoned', repr(e)))
+                        opened += 1
+                        continue
+                    c = r.random()
+                    if c < 0.15:
+                        try:
+                            v = await sess.device.shell('whole', decode=False, read_timeout_s=2.0)
+                            if v != b'w1w2':
+                                errors.append(('whole', repr(v)))
+                        except Exception as e:  # noqa
+                            errors.append(('whole', repr(e)))
+                        continue
+                    nm = r.choice(live)
+                    try:
+                        got[nm].append(await gens[nm].__anext__())
+                    except StopAsyncIteration:
+                        live.remove(nm)
+                    except Exception as e:  # noqa
+                        errors.append((nm, repr(e)))
+                        live.remove(nm)
+            sess.rebind_clock()
+            sess.loop.run_until_complete(go())
+        sess.close_loop()
+        bad = [(nm, got[nm], scripts[nm]) for nm in names if got[nm] != scripts[nm]]
+        return bad, errors
+
+    def long_lived(mode, nabandon):
+        """Stream A stays open (its CLSE withheld) while `nabandon` other streams are opened and abandoned; then another
+        operation's reader reads A's CLSE off the wire; A must still end normally."""
+        dev = simdev.SimDevice(chooser=simdev.First())
+        dev.shell_scripts[b'shell:long'] = [b'A1']
+        dev.shell_scripts[b'shell:whole'] = [b'w1']
+        dev.service_for = lambda dest, d: (simdev.ShellService([b'x'], close=False) if dest.startswith(b'shell:ab') else None)
+        sess = env.Session(mode, dev)
+        sess.call('connect')
+        out = {}
+        if mode == 'sync':
+            ga = iter(sess.device.streaming_shell('long', decode=False, read_timeout_s=2.0))
+            out['first'] = next(ga)
+            dev.frozen = {dev.all_streams[0].lid}
+            for j in range(nabandon):
+                next(iter(sess.device.streaming_shell('ab%d' % j, decode=False, read_timeout_s=2.0)))
+            dev.frozen = set()
+            out['whole'] = sess.device.shell('whole', decode=False, read_timeout_s=2.0)
+            try:
+                out['rest'] = list(ga)
+            except Exception as e:  # noqa
+                out['rest'] = repr(e)
+        else:
+            async def go():
+                ga = sess.device.streaming_shell('long', decode=False, read_timeout_s=2.0).__aiter__()
+                out['first'] = await ga.__anext__()
+                dev.frozen = {dev.all_streams[0].lid}
+                for j in range(nabandon):
+                    await sess.device.streaming_shell('ab%d' % j, decode=False, read_timeout_s=2.0).__aiter__().__anext__()
+                dev.frozen = set()
+                out['whole'] = await sess.device.shell('whole', decode=False, read_timeout_s=2.0)
+                try:
+                    out['rest'] = [x async for x in ga]
+                except Exception as e:  # noqa
+                    out['rest'] = repr(e)
+            sess.rebind_clock()
+            sess.loop.run_until_complete(go())
+        sess.close_loop()
+        return out
+
+    for mode in ('sync', 'async'):
+        for nab in (0, 3, 70, 300):
+            out = long_lived(mode, nab)
+            n += 1
+            if out != dict(first=b'A1', whole=b'w1', rest=[]):
+                ctx.violation('C06.SameAsAlone', dict(kind='a stream kept open across %d abandoned streams, its CLSE read by another operation' % nab, mode=mode, observed={k: repr(v)[:80] for k, v in out.items()}))
+    cases = [(m, ctx.seed * 100 + k, 0) for k in range(30 if ctx.quick else 600) for m in ('sync', 'async')] + [(m, ctx.seed + 7, 70) for m in ('sync', 'async')]
+    for (mode, seed, nab) in cases:
+        bad, errors = scenario(mode, seed, nab)
+        n += 1
+        if bad or errors:
+            ctx.violation('C06.SameAsAlone', dict(kind='interleaved generators in one %s' % ('thread' if mode == 'sync' else 'task'), mode=mode, seed=seed, abandoned_streams=nab,
+                                                  wrong=[(a, [bytes(x) for x in b][:5], c[:5]) for a, b, c in bad][:3], errors=errors[:3]))
+            if len(ctx.violations) >= 3:
+                break
+    ctx.count(evaluations=n)
+    ctx.extra['interleaved_generator_scenarios'] = n
 
 
 def replay(ctx):
@@ -179,7 +345,10 @@ def body(ctx):
     if not ctx.quick:
         do_tour(ctx, 'C', k1, f5, ['sync', 'async'])
         do_tour(ctx, 'B', k1, f5, ['sync', 'async'])
-    do_explore(ctx, rng, 700 if ctx.quick else 20000, ['A', 'B', 'C', 'D', 'F', 'G', 'I'] if ctx.quick else ['A', 'B', 'C', 'D', 'E', 'F', 'G', 'H', 'I'], ['sync', 'async'])
+    interleaved_generators(ctx, rng)
+    if ctx.violations:
+        return
+    do_explore(ctx, rng, 900 if ctx.quick else 20000, ['A', 'B', 'C', 'D', 'F', 'G', 'I', 'J', 'K'] if ctx.quick else ['A', 'B', 'C', 'D', 'E', 'F', 'G', 'H', 'I', 'J', 'K'], ['sync', 'async'])
     ctx.assumptions += ['preemption at lock acquisitions and at the first bulk_read of a frame (the critical sections of the design spec); in a quarter of the explored schedules of the threaded implementation also before every line of the packet store methods and of _AdbIOManager.read (sys.settrace), in a third before every bulk_write and local file read',
                         'device conforms to the Env model; it picks any ready stream next',
                         'design conformance (tour) is informative: a mismatch is reported as DESIGN-DRIFT, verdicts come only from TraceEnv clauses']
